@@ -635,6 +635,8 @@ class Gen:
             return Redir("<<<", self.word(depth))
         ops = OPS_WRITE + ([">|", "1>", "3>>", "<>"] if self.exotic else [])
         op = r.pick(ops)
+        if getattr(self, "no_file_redirects", False):
+            return Redir(r.pick([">", "2>", "&>"]), lit("/dev/null"))
         y = r.random()
         if y < 0.55:
             t = lit(r.pick(TARGETS_ALLOW))
